@@ -1,7 +1,181 @@
-(* C06 — Applying repetition modifiers unrolls n back-to-back copies, once. *)
-From Coq Require Import ZArith List Bool.
-From QCE Require Import Base.Prelude Core.Model C06.Proofs.
+(* C06 — Applying repetition modifiers unrolls n back-to-back copies, once.
+   Size hypotheses: the layered listing visits at most MAX_GRAPH_DEPTH - 1 = 4999 layers (C02: listing_truncation), so every
+   statement about "all operations" carries a bound that keeps each graph within 4999 nodes:
+   `unroll_small_prog p` = every command list times the count of its block has at most 4999 entries and every count is >= 1
+   (C06.Proofs); `ok o` = well-formed and every graph of o has at most 4999 nodes, `reps_pos o` = every count >= 1
+   (Core.UnrollProofs).  `prog_expanded p` = every leaf of p, product-of-enclosing-counts times (C06.Proofs). *)
+From Coq Require Import ZArith List Bool Permutation.
+Import ListNotations.
+From QCE Require Import Base.Prelude Core.Model Core.BfsWf Core.TimesProofs C02.Proofs Core.UnrollProofs Core.UnrollTimes
+  Core.UnrollOrder Core.UnrollDuration Core.UnrollCopy C06.Run C06.Proofs.
 Open Scope Z_scope.
+
 Theorem C06_count_one_is_identity : forall env ns, repeat_nodes env ns 1 = ns.
 Proof. exact repeat_nodes_one. Qed.
 Print Assumptions C06_count_one_is_identity.
+
+(* the unrolled circuit lists every leaf of the program product-of-enclosing-counts times, and nothing else *)
+Theorem C06_unroll_multiset : forall env p, unroll_small_prog p ->
+  Permutation (map e_leaf (listing env (apply_modifiers env 1 (run_prog env p)))) (prog_expanded p).
+Proof. exact unroll_listing_multiset. Qed.
+Print Assumptions C06_unroll_multiset.
+
+(* the same on labels, whatever the per-class copy() does to the other fields *)
+Theorem C06_unroll_multiset_labels : forall env p, unroll_small_prog p ->
+  Permutation (map l_lab (map e_leaf (listing env (apply_modifiers env 1 (run_prog env p))))) (map l_lab (prog_expanded p)).
+Proof. exact unroll_listing_labels. Qed.
+Print Assumptions C06_unroll_multiset_labels.
+
+(* in the terms of the check (C06.Run.spec_ok compares the implementation's unrolled listing with expected_keys) *)
+Theorem C06_unroll_multiset_keys : forall env p, unroll_small_prog p ->
+  Permutation (map (key_of_leaf env) (map e_leaf (listing env (apply_modifiers env 1 (run_prog env p))))) (expected_keys env p).
+Proof. exact unroll_listing_keys. Qed.
+Print Assumptions C06_unroll_multiset_keys.
+
+(* graph level, any circuit: nested counts multiply; f is any observation of leaves that copy() keeps *)
+Theorem C06_unroll_multiset_graph : forall env (B : Type) (f : leaf -> B), (forall l, f (copy_leaf l) = f l) ->
+  forall reps ns, ok (OComp reps ns) -> reps_pos (OComp reps ns) ->
+  Permutation (map f (leaves_of (OComp 1 (apply_modifiers env reps ns)))) (map f (expanded (OComp reps ns))).
+Proof. exact unroll_fmultiset. Qed.
+Print Assumptions C06_unroll_multiset_graph.
+
+(* repeat: n copies of the content *)
+Theorem C06_repeat_multiset : forall env (B : Type) (f : leaf -> B), (forall l, f (copy_leaf l) = f l) ->
+  forall r ns n, ok (OComp r ns) -> 1 <= n ->
+  Permutation (map f (leaves_of (OComp r (repeat_nodes env ns n)))) (rep_app (Z.to_nat n) (map f (leaves_of (OComp r ns)))).
+Proof. exact repeat_fleaves. Qed.
+Print Assumptions C06_repeat_multiset.
+
+(* extend moves the listed operations of `other` unchanged, each once, behind those of ns *)
+Theorem C06_extend_ops : forall env ns other,
+  map n_op (extend env ns other) = map n_op ns ++ listed n_op other (bfs (parents other)).
+Proof. exact extend_ops. Qed.
+Print Assumptions C06_extend_ops.
+
+(* every count is 1 afterwards (deep), for every circuit *)
+Theorem C06_counts_one : forall env reps ns, counts_one (OComp 1 (apply_modifiers env reps ns)).
+Proof. exact unroll_counts_one. Qed.
+Print Assumptions C06_counts_one.
+
+(* applying again changes nothing; with all counts 1 apply_modifiers is the identity *)
+Theorem C06_idempotent : forall env reps ns, apply_modifiers env 1 (apply_modifiers env reps ns) = apply_modifiers env reps ns.
+Proof. exact unroll_idem. Qed.
+Print Assumptions C06_idempotent.
+
+Theorem C06_identity_on_unrolled : forall env ns, counts_one (OComp 1 ns) -> apply_modifiers env 1 ns = ns.
+Proof. exact unroll_id. Qed.
+Print Assumptions C06_identity_on_unrolled.
+
+(* each copy begins when the latest-ending relation leaf of what precedes it has ended: the k-th listed node of `other`, if
+   it has no relation, is stored at index length ns + k with the multi-link to the relation leaves of ns (taken BEFORE the
+   extension), starts at the end of one of them, not before the end of any of them; times are those of the final table *)
+Theorem C06_copy_start : forall env ns other, wf_op (OComp 1 ns) -> Forall (fun n => wf_op (n_op n)) other ->
+  graph_leaves (parents ns) <> [] ->
+  forall c k i n, nth_error (bfs (parents other)) k = Some i -> nth_error other i = Some n -> has_relation (n_link n) = false ->
+  exists nd, nth_error (extend env ns other) (length ns + k) = Some nd /\ n_op nd = n_op n /\
+    n_link nd = LMulti (graph_leaves (parents ns)) /\
+    (exists p, In p (graph_leaves (parents ns)) /\
+               fst (nth (length ns + k) (node_times env c (extend env ns other)) (0, 0))
+               = snd (nth p (node_times env c (extend env ns other)) (0, 0))) /\
+    (forall q, In q (graph_leaves (parents ns)) ->
+               snd (nth q (node_times env c (extend env ns other)) (0, 0))
+               <= fst (nth (length ns + k) (node_times env c (extend env ns other)) (0, 0))) /\
+    (forall q, In q (graph_leaves (parents ns)) ->
+               nth q (node_times env c (extend env ns other)) (0, 0) = nth q (node_times env c ns) (0, 0)).
+Proof. exact extend_first_ops_start. Qed.
+Print Assumptions C06_copy_start.
+
+(* a non-empty circuit within the size limit has a relation leaf *)
+Theorem C06_relation_leaf_exists : forall ps, BfsProofs.wf_parents ps -> ps <> [] -> (length ps <= max_layers)%nat ->
+  graph_leaves ps <> [].
+Proof. exact graph_leaves_nonempty. Qed.
+Print Assumptions C06_relation_leaf_exists.
+
+(* the whole block reappears shifted to that instant (blocks with plain links, as every program builds them) *)
+Theorem C06_copy_shifted : forall env ns other, wf_op (OComp 1 ns) -> wf_nodes other ->
+  Forall (fun n => wf_op (n_op n)) other -> simple_links other -> ns <> [] -> (length ns + length other <= max_layers)%nat ->
+  forall k i, nth_error (bfs (parents other)) k = Some i ->
+  nth (length ns + k) (node_times env None (extend env ns other)) (0, 0)
+  = shift (attach_time env ns) (nth i (node_times env None other) (0, 0)).
+Proof. exact extend_times_shift. Qed.
+Print Assumptions C06_copy_shifted.
+
+(* listing order: the circuit first, then the block *)
+Theorem C06_extend_is_concatenation : forall env ns other, wf_op (OComp 1 ns) -> wf_nodes other ->
+  Forall (fun n => wf_op (n_op n)) other -> simple_links other -> ns <> [] -> (length ns + length other <= max_layers)%nat ->
+  map e_leaf (listing env (extend env ns other)) = map e_leaf (listing env ns) ++ map e_leaf (listing env other).
+Proof. exact extend_listing_concat. Qed.
+Print Assumptions C06_extend_is_concatenation.
+
+(* the listing of the repeated block is its listing followed by n-1 times the listing of its copy *)
+Theorem C06_unrolled_is_concatenation : forall env ns n, wf_op (OComp 1 ns) -> simple_links ns -> ns <> [] -> 1 <= n ->
+  (Z.to_nat n * length ns <= max_layers)%nat ->
+  map e_leaf (listing env (repeat_nodes env ns n))
+  = map e_leaf (listing env ns) ++ rep_app (Z.to_nat (n - 1)) (map e_leaf (listing env (copy_nodes env (copy_nodes env ns)))).
+Proof. exact repeat_listing_concat. Qed.
+Print Assumptions C06_unrolled_is_concatenation.
+
+(* one level of apply_modifiers, nested blocks included *)
+Theorem C06_unroll_is_concatenation : forall env fuel r ns, wf_op (OComp 1 ns) -> simple_links ns -> ns <> [] -> 1 <= r ->
+  (Z.to_nat r * length ns <= max_layers)%nat ->
+  op_leaves (OComp 1 (apply_mods_fuel (S fuel) env r ns))
+  = unrolled_content env fuel ns ++ rep_app (Z.to_nat (r - 1)) (unrolled_content env fuel (copy_nodes env (copy_nodes env ns))).
+Proof. exact unroll_concat. Qed.
+Print Assumptions C06_unroll_is_concatenation.
+
+(* a program that is one block with count r *)
+Theorem C06_block_program_is_concatenation : forall env r body,
+  let sub := copy_nodes env (run_prog env body) in
+  let d := op_depth (OComp r sub) in
+  sub <> [] -> 1 <= r -> (Z.to_nat r * length sub <= max_layers)%nat ->
+  map e_leaf (listing env (apply_modifiers env 1 (run_prog env [CSub r body])))
+  = unrolled_content env (pred d) sub
+    ++ rep_app (Z.to_nat (r - 1)) (unrolled_content env (pred d) (copy_nodes env (copy_nodes env sub))).
+Proof. exact prog_block_concat. Qed.
+Print Assumptions C06_block_program_is_concatenation.
+
+(* n*T: a flat block (blk: nothing starts before 0, every end <= T, an operation ending at T is a relation leaf) with plain
+   links and roots on distinct channels -- every flat block a program builds (run_prog_simple, run_prog_roots_apart) --
+   repeated n times lasts n*T.  Uses that every class' copy() of the current source keeps all fields and the link. *)
+Theorem C06_nT : forall env ns n T, blk env ns T -> simple_links ns -> roots_apart ns -> 1 <= n ->
+  (Z.to_nat n * length ns <= max_layers)%nat -> comp_duration env (repeat_nodes env ns n) = n * T.
+Proof. exact repeat_nT_current. Qed.
+Print Assumptions C06_nT.
+
+(* the same with the facts about copy() as hypotheses (independent of the class table) *)
+Theorem C06_nT_table : forall env ns n T, (forall l, copy_leaf l = l) -> (forall l, l_keeps l = true) ->
+  blk env ns T -> simple_links ns -> roots_apart ns -> 1 <= n ->
+  (Z.to_nat n * length ns <= max_layers)%nat -> comp_duration env (repeat_nodes env ns n) = n * T.
+Proof. exact repeat_nT_flat. Qed.
+Print Assumptions C06_nT_table.
+
+(* ... and with only a hypothesis on the copy (no assumption on classes, roots or the order of the copy) *)
+Theorem C06_nT_given_copy : forall env ns n T, blk env ns T -> simple_links ns -> blk env (copy_nodes env (copy_nodes env ns)) T ->
+  1 <= n -> (Z.to_nat n * length ns <= max_layers)%nat -> comp_duration env (repeat_nodes env ns n) = n * T.
+Proof. exact repeat_nT. Qed.
+Print Assumptions C06_nT_given_copy.
+
+(* for flat blocks the unrolled listing is exactly the n-fold concatenation of the block's listing *)
+Theorem C06_flat_block_is_nfold_concatenation : forall env ns n, wf_nodes ns -> flat ns -> simple_links ns -> roots_apart ns ->
+  ns <> [] -> 1 <= n -> (Z.to_nat n * length ns <= max_layers)%nat ->
+  map e_leaf (listing env (repeat_nodes env ns n)) = rep_app (Z.to_nat n) (map e_leaf (listing env ns)).
+Proof. exact repeat_flat_listing_current. Qed.
+Print Assumptions C06_flat_block_is_nfold_concatenation.
+
+(* program level: one flat block with count n *)
+Theorem C06_flat_block_program : forall env body n T, flat_body body = true -> blk env (run_prog env body) T ->
+  1 <= n -> (Z.to_nat n * length body <= max_layers)%nat ->
+  comp_duration env (apply_modifiers env 1 (run_prog env [CSub n body])) = n * T
+  /\ map e_leaf (listing env (apply_modifiers env 1 (run_prog env [CSub n body])))
+     = rep_app (Z.to_nat n) (map e_leaf (listing env (run_prog env body))).
+Proof. exact prog_flat_block. Qed.
+Print Assumptions C06_flat_block_program.
+
+(* what programs build: plain links, roots on distinct channels *)
+Theorem C06_program_blocks : forall env p, simple_links (run_prog env p) /\ roots_apart (run_prog env p).
+Proof. exact run_prog_block_facts. Qed.
+Print Assumptions C06_program_blocks.
+
+Theorem C06_block_duration : forall env X T, blk env X T -> (length X <= max_layers)%nat -> comp_duration env X = T.
+Proof. exact blk_duration. Qed.
+Print Assumptions C06_block_duration.
